@@ -18,6 +18,7 @@ UNITS = {
     "u18_actor_table": {"verus": "specs/u18_actor_table.vt.rs"},
     "u19_import": {"verus": "specs/u19_import.vt.rs"},
     "u20_chunkparse": {"verus": "specs/u20_chunkparse.vt.rs"},
+    "u21_patchlog_tx": {"verus": "specs/u21_patchlog_tx.vt.rs"},
 }
 CHUNK = "rust/automerge/src/storage/chunk.rs"
 EXID = "rust/automerge/src/exid.rs"
@@ -224,7 +225,8 @@ PROPERTIES.update({
     },
     "C37": {
         "level": "proof",
-        "verus": [("u04_ids", ["exid_to_opid", "op_cursor_to_opid", "new", "get_actor_safe"]), ("u16_autocommit", ["ensure_transaction_open", "commit_with", "empty_change", "ensure_transaction_closed"]), ("u19_import", "*")],
+        "verus": [("u04_ids", ["exid_to_opid", "op_cursor_to_opid", "new", "get_actor_safe"]), ("u16_autocommit", ["ensure_transaction_open", "commit_with", "empty_change", "ensure_transaction_closed"]), ("u19_import", "*"),
+                  ("u21_patchlog_tx", "*")],
         "kani": ["u04_opid_new", "u12_normalize_range", "u08_width_single_scalar"],
         "not_under_contract": ["every other public entry point", "the ~100 internal OpId::new call sites", "hydrate::Value::apply_patches"],
         "assumptions": ["a document has at most u32::MAX actors"],
@@ -232,6 +234,7 @@ PROPERTIES.update({
                        "the caller's range; OpId::new's two unwrap()s become its precondition (verified on its real body), and Verus proves every call from exid_to_opid and "
                        "op_cursor_to_opid establishes it for EVERY ExId / cursor value a caller can construct or decode. "
                        "U19: Automerge::import_obj is total on every &str (no unwrap on hex / integer conversion, string slices on char boundaries, table index in range; the str primitives are trusted wrappers). "
+                       "U21: the real PatchLog::begin_transaction's assert! (no speculative actor pending) is its precondition and the real finish_transaction always clears it -- the two contracts U16 assumes. "
                        "U16: AutoCommit's `.unwrap()` of the just-opened transaction and the `assert!` in PatchLog::begin_transaction (no speculative actor pending) cannot fire from ensure_transaction_open / commit_with / empty_change.",
     },
 })
